@@ -565,6 +565,54 @@ def split_tuple_assigns(stmts):
     return out
 
 
+def rows_comprehension_to_loop(fn, log=None, where=""):
+    """rows = [(a, b) for e in xs if c]; conn.executemany(q, rows)  ->  rows = []; for e in xs: if c: rows.append((a, b))
+    (the rules describe bulk writes as an append loop; the two spellings build the same list)"""
+    names = set()
+    for n in ast.walk(fn):
+        if isinstance(n, ast.Call) and isinstance(n.func, ast.Attribute) and n.func.attr == "executemany" and len(n.args) >= 2 and isinstance(n.args[1], ast.Name):
+            names.add(n.args[1].id)
+    if not names:
+        return False
+    changed = False
+
+    def rec(stmts):
+        nonlocal changed
+        out = []
+        for st in stmts:
+            for field in ("body", "orelse", "finalbody"):
+                blk = getattr(st, field, None)
+                if isinstance(blk, list) and blk and isinstance(blk[0], ast.stmt) and not isinstance(st, (ast.FunctionDef, ast.AsyncFunctionDef, ast.ClassDef)):
+                    setattr(st, field, rec(blk))
+            if isinstance(st, ast.Assign) and len(st.targets) == 1 and isinstance(st.targets[0], ast.Name) and st.targets[0].id in names and isinstance(st.value, ast.ListComp) and len(st.value.generators) == 1 and not st.value.generators[0].is_async:
+                g = st.value.generators[0]
+                acc = st.targets[0].id
+                if any(isinstance(x, ast.Name) and x.id == acc for x in ast.walk(g.iter)):
+                    out.append(st)
+                    continue
+                inner = [ast.Expr(value=ast.Call(func=ast.Attribute(value=ast.Name(id=acc, ctx=ast.Load()), attr="append", ctx=ast.Load()), args=[st.value.elt], keywords=[]))]
+                for c in reversed(g.ifs):
+                    inner = [ast.If(test=c, body=inner, orelse=[])]
+                a = ast.Assign(targets=[ast.Name(id=acc, ctx=ast.Store())], value=ast.List(elts=[], ctx=ast.Load()))
+                f = ast.For(target=g.target, iter=g.iter, body=inner, orelse=[])
+                for x in (a, f):
+                    ast.copy_location(x, st)
+                    for y in ast.walk(x):
+                        if not hasattr(y, "lineno"):
+                            ast.copy_location(y, st)
+                    ast.fix_missing_locations(x)
+                out += [a, f]
+                changed = True
+                if log is not None:
+                    log.append(f"rows comprehension -> loop {where}:{st.lineno} {acc}")
+            else:
+                out.append(st)
+        return out
+
+    fn.body = rec(fn.body)
+    return changed
+
+
 def run(modules, known_funcs):
     """normalise all module trees in place; returns the list of rewrites performed"""
     log = []
@@ -573,4 +621,7 @@ def run(modules, known_funcs):
     for mi in modules.values():
         mi.tree = _Misc(log, mi.name).visit(mi.tree)
         ast.fix_missing_locations(mi.tree)
+        for n in ast.walk(mi.tree):
+            if isinstance(n, (ast.FunctionDef, ast.AsyncFunctionDef)):
+                rows_comprehension_to_loop(n, log, mi.name)
     return log
